@@ -434,6 +434,7 @@ func c20Alphabet(dates []string) []jr.Dir {
 			jr.T(d, "deposit usd", jr.B(accOpening, accCash, "100", "USD")),
 			jr.T(d, "shares", jr.B(accOpening, accCash, "2", "AAPL")),
 			jr.T(d, "withdraw", jr.B(accCash, accFood, "50", "CHF")),
+			jr.T(d, "withdraw written the other way round", jr.B(accFood, accCash, "-50", "CHF")),
 			jr.T(d, "transfer", jr.B(accChecking, accCash, "200", "CHF")),
 			jr.T(d, "salary", jr.B(accSalary, accChecking, "500", "CHF")),
 			jr.Dir{Kind: jr.Trx, Date: d, Desc: "dividend", HasPerf: true, Perf: []string{"AAPL"}, Books: []jr.Booking{jr.B(accSalary, accCash, "7", "USD")}},
